@@ -20,8 +20,9 @@ Definition status_of_code (z : Z) : status :=
 
 Definition verb_of (name : string) (n : nat) : option verb :=
   if name =? "wok" then Some VWorker
-  else if name =? "wfail" then Some VRejected
-  else if name =? "loadmissing" then Some VRejected
+  else if name =? "wfail" then Some (VRejected 0)
+  else if name =? "loadmissing" then Some (VRejected 0)
+  else if name =? "reloadbad" then Some (VRejected 1)
   else if name =? "query" then Some VQuery
   else if name =? "status" then Some VQuery
   else if name =? "metrics" then Some VQuery
@@ -92,7 +93,7 @@ Definition step (st : rstate) (op : list tok) : rstate * list tok :=
       | [TN w; TN w2; TN k; TN s] =>
         match nth_error (sent_of st (Z.to_nat w2)) (Z.to_nat k) with
         | Some r => do_event st (EResp (Z.to_nat w) (Some r) (status_of_code s))
-        | None => (st, [])
+        | None => (st, if r_started st && stopping (r_hub st) then [TS "gone"] else [])
         end
       | _ => bad end
     else if name =? "respu" then
